@@ -1,6 +1,10 @@
 package main
 
-import "math/rand"
+import (
+	"math/rand"
+	"sort"
+	"strings"
+)
 
 func init() {
 	props["C01"] = func(c *Ctx) {
@@ -16,6 +20,26 @@ func init() {
 				return (n > 0 && n < len(t.Recs)) || e
 			},
 			Tags: func(t LogCase, impl Sexp) []string { return logTags("c01", t, impl) },
+			// C01 speaks about WHICH records come back (with their timestamps and, unless a formatting stage
+			// rewrote it, their lines) and about independence of what the storage evaluates; a disagreement
+			// confined to label values is some stage's business (C06/C07), not a record gained or lost
+			PropertyFails: func(t LogCase, impl, model Sexp) bool {
+				if h := impl.Head(); h != "ok" || model.Head() != "ok" {
+					return true
+				}
+				withLine := true
+				for _, st := range t.Stages {
+					if st.Kind == "linefmt" || st.Kind == "unpack" || st.Kind == "decolorize" {
+						withLine = false
+					}
+				}
+				if c01Entries(impl, withLine) != c01Entries(model, withLine) {
+					return true
+				}
+				plain := t
+				plain.CapsLabel, plain.CapsLine = nil, nil
+				return logImpl(plain, true).String() != impl.String()
+			},
 		}
 		RunSpec(c, spec, c.Scale(5000, 200000))
 		if c.ReplayIn != "" {
@@ -51,4 +75,20 @@ func init() {
 		c.CountN("c01:offload-barrier-probes", len(probes))
 		RunCases(c, spec, probes)
 	}
+}
+
+// c01Entries: the multiset of entries of a result as a canonical string (timestamps, and lines if asked).
+func c01Entries(res Sexp, withLine bool) string {
+	var es []string
+	for _, st := range res.Args() {
+		for _, e := range st.List[2:] {
+			if withLine {
+				es = append(es, e.String())
+			} else {
+				es = append(es, e.List[1].String())
+			}
+		}
+	}
+	sort.Strings(es)
+	return strings.Join(es, "\n")
 }
